@@ -174,16 +174,32 @@ func checkC14(c *Ctx) {
 		ms := c.compareMatches(f, cmp)
 		for _, m := range ms {
 			isKeyCmp := false
-			for _, a := range m.call.Call.Args[1:] { // skip receiver
-				if p, ok := a.(*ssa.Parameter); ok && p.Name() == "key" {
-					isKeyCmp = true
+			var fromKey func(v ssa.Value, depth int) bool
+			fromKey = func(v ssa.Value, depth int) bool {
+				if depth > 4 {
+					return false
 				}
-				if ph, ok := a.(*ssa.Phi); ok { // key may be rewritten (single-element array key)
-					for _, e := range ph.Edges {
-						if p, ok := e.(*ssa.Parameter); ok && p.Name() == "key" {
-							isKeyCmp = true
+				switch x := v.(type) {
+				case *ssa.Parameter:
+					return x.Name() == "key"
+				case *ssa.Phi: // key may be rewritten (single-element array key)
+					for _, e := range x.Edges {
+						if fromKey(e, depth+1) {
+							return true
 						}
 					}
+				case *ssa.Call: // or normalised by a helper that is handed the key
+					for _, a := range x.Call.Args {
+						if fromKey(a, depth+1) {
+							return true
+						}
+					}
+				}
+				return false
+			}
+			for _, a := range m.call.Call.Args[1:] { // skip receiver
+				if fromKey(a, 0) {
+					isKeyCmp = true
 				}
 			}
 			if !isKeyCmp {
@@ -529,6 +545,99 @@ func checkC14(c *Ctx) {
 		c.check(nLoads >= 10, "C14-WM", "package", "order list handed out", token.NoPos,
 			fmt.Sprintf("%d reads of the order list examined: it is indexed, ranged over and copied, never handed out", nLoads),
 			fmt.Sprintf("only %d reads of the order list found", nLoads))
+	}
+
+	// ---- C14-KEY: one reading of a caller's key in every routine; stored keys are looked up as stored
+	{
+		hashExpr := c.fn("HashExpression")
+		hget := c.fn("SexpHash.HashGet")
+		rawKey := func(f *ssa.Function, v ssa.Value) bool {
+			// the value is the untouched key parameter (or an untouched element of the builtin's argument slice)
+			if p, ok := v.(*ssa.Parameter); ok && p.Name() == "key" {
+				return true
+			}
+			if ld, ok := v.(*ssa.UnOp); ok && ld.Op == token.MUL {
+				if ia, ok := ld.X.(*ssa.IndexAddr); ok {
+					if p, ok := ia.X.(*ssa.Parameter); ok && p.Name() == "args" {
+						return true
+					}
+				}
+			}
+			return false
+		}
+		n := 0
+		for _, f := range []*ssa.Function{set, del, hget} {
+			if f == nil || hashExpr == nil {
+				continue
+			}
+			// what is hashed (directly, or via HashGetDefault for HashGet)
+			var used []ssa.Value
+			for _, ci := range callsOf(f, hashExpr) {
+				used = append(used, ci.Common().Args[1])
+			}
+			for _, ci := range callsOf(f, get) {
+				used = append(used, ci.Common().Args[2])
+			}
+			for _, v := range used {
+				n++
+				c.check(!rawKey(f, v), "C14-KEY", fnName(f), "caller's key normalised before it is hashed", f.Pos(),
+					"the key that is hashed went through the one-element-array reading (a rewritten variable or the normalising helper)",
+					"the caller's key is hashed as given: a one-element array key h[6] is read as the key 6 by the other routines, so this one misses entries the others create (set then delete removes nothing)")
+			}
+		}
+		// callers of HashGetDefault outside the hash code pass a normalised key
+		for _, f := range c.zygoFuncs() {
+			if c.fileOf(f) == "hashutils.go" || c.fileOf(f) == "jsonmsgp.go" {
+				continue
+			}
+			for _, ci := range callsOf(f, get) {
+				n++
+				c.check(!rawKey(f, ci.Common().Args[2]), "C14-KEY", fnName(f), "caller's key normalised before hget-with-default", ci.Pos(),
+					"the script's key is normalised before the look-up with a default", "hget with a default looks the script's key up as given while plain hget unwraps a one-element array: the two disagree on h[6]")
+			}
+		}
+		// walkers of the order list never re-interpret a stored key
+		if hget != nil {
+			for _, f := range c.zygoFuncs() {
+				for _, ci := range callsOf(f, hget) {
+					arg := ci.Common().Args[2]
+					fromOrder := false
+					for _, leaf := range phiLeaves(arg) {
+						if ld, ok := leaf.(*ssa.UnOp); ok && ld.Op == token.MUL {
+							if ia, ok := ld.X.(*ssa.IndexAddr); ok && derivesFromField(ia.X, KeyOrder, 0) {
+								fromOrder = true
+							}
+						}
+					}
+					if fromOrder {
+						n++
+						c.bad("C14-KEY", fnName(f), "stored key looked up as a caller's key", ci.Pos(),
+							"a key taken from the order list is looked up through HashGet, which reads it as a caller's key (unwraps a one-element array, follows dot paths): a stored key [6] or x.y is not found under its own name and the entry cannot be printed, paired or encoded")
+					}
+				}
+			}
+		}
+		if n < 4 {
+			c.undecided("C14-KEY", "hashutils.go", "key readings", token.NoPos, fmt.Sprintf("only %d key uses examined", n))
+		}
+		// the order entry dropped by a delete belongs to the deleted pair's bucket
+		if hashExpr != nil {
+			okBucket := false
+			eachInstr(del, func(b *ssa.BasicBlock, i int, in ssa.Instruction) {
+				call, ok := in.(*ssa.Call)
+				if !ok || call.Call.StaticCallee() != hashExpr {
+					return
+				}
+				if ld, ok := call.Call.Args[1].(*ssa.UnOp); ok && ld.Op == token.MUL {
+					if ia, ok := ld.X.(*ssa.IndexAddr); ok && derivesFromField(ia.X, KeyOrder, 0) {
+						okBucket = true
+					}
+				}
+			})
+			c.check(okBucket, "C14-DEL", "SexpHash.HashDelete", "order entry dropped is of the deleted pair's bucket", del.Pos(),
+				"the order-list entry is matched on its hash value as well as on Compare",
+				"the order-list entry to drop is chosen by Compare alone: keys that compare equal but hash differently (['a' 1] and [97 1]) are different keys, and deleting one removes the other from the order list")
+		}
 	}
 
 	// ---- C14-GET: the value returned for a hit comes from the matched pair
